@@ -316,7 +316,13 @@ def rule_flag(ctx: Ctx):
     for s in own_nodes(fc.node):
         if isinstance(s, ast.Assign) and any(isinstance(t, ast.Attribute) and t.attr == "is_coroutine" for t in s.targets):
             ok = isinstance(s.value, ast.Call) and show(s.value.func) in ("iscoroutinefunction", "inspect.iscoroutinefunction", "asyncio.iscoroutinefunction")
-            rep.check(ok, "C05.flag", fc.loc(s), "SignatureAdapter.is_coroutine is iscoroutinefunction(<the callable>)", fc.key, norm_stmt(s))
+            # of the callable that will be CALLED (the parameter itself): a coroutine function produced by a decorator is a
+            # coroutine function whatever it wraps, and a plain wrapper around one is not
+            ok = ok and len(s.value.args) == 1 and show(s.value.args[0]) == fc.params[1] and not any(
+                isinstance(n_, (ast.Assign, ast.AnnAssign)) and any(isinstance(t_, ast.Name) and t_.id == fc.params[1]
+                                                                    for t_ in (n_.targets if isinstance(n_, ast.Assign) else [n_.target]))
+                for n_ in own_nodes(fc.node))
+            rep.check(ok, "C05.flag", fc.loc(s), "SignatureAdapter.is_coroutine is iscoroutinefunction(<the callable itself>)", fc.key, norm_stmt(s))
     if not ok:
         rep.violation("C05.flag", fc.loc(), "SignatureAdapter.from_callable does not compute is_coroutine", fc.key, "no is_coroutine assignment")
     wi = ctx.fn("CallbackWrapper.__init__")
@@ -484,7 +490,9 @@ def rule_start(ctx: Ctx, rule: str = "C05.start"):
         puts = [e for e in p.calls() if k.calls_method(e, "put")]
         if puts:
             n_put += 1
-            arg = expand(puts[0].term.args[0], p.events)
+            from ..kernel import through_self_attr
+
+            arg = expand(through_self_attr(puts[0].term.args[0], p, puts[0].idx), p.events)
             ok = isinstance(arg, ast.Call) and show(arg.func) == "TriggerData" and "__initial__" in show(arg)
             rep.check(ok, rule, st.loc(), "start() enqueues the `__initial__` trigger (FIFO puts it before the first event)", st.key,
                       f"put({show(arg)})")
